@@ -473,6 +473,96 @@ def replay_history(r: dict) -> bool:
 
 
 # ---------------------------------------------------------------------------
+# PART A2: two triggers that share a condition
+# ---------------------------------------------------------------------------
+SHARED = {"S": (("e1",), "single"), "A": (("e2", "e1", "st"), "and")}
+SHARED_OPS = [("emit", "e1", 1), ("emit", "e2", 1), ("ok",), ("loop",)]
+
+
+def shared_histories(depth: int) -> list[tuple]:
+    """every sequence of <= depth operations in which each occurrence (e1, e2, source success) happens at most once,
+    no two loop iterations follow each other, and the last operation is a loop iteration."""
+    out: list[tuple] = []
+
+    def rec(h: tuple) -> None:
+        if h and h[-1] == ("loop",):
+            out.append(h)
+        if len(h) == depth:
+            return
+        for op in SHARED_OPS:
+            if op == ("loop",):
+                if not h or h[-1] == ("loop",):
+                    continue
+            elif op in h:
+                continue
+            rec(h + (op,))
+
+    rec(())
+    return out
+
+
+def _run_shared(backend: str, hist: tuple) -> tuple | None:
+    """task S launched by e1 alone, task A by e2 AND e1 AND source success: after every loop iteration each has been
+    launched exactly once iff all its conditions have occurred (each occurrence happens once per history)."""
+    from pynenc.runner.runner_context import RunnerContext
+
+    env.reset_world()
+    if backend == env.MEM:
+        app = env.make_app(env.MEM, app_id=APP_ID)
+    else:
+        app = env.make_app(env.SQLITE, app_id=APP_ID, db=env.reuse_db(APP_ID))
+    src = tasks.bind(app, T.src)
+    tS = tasks.bind(app, T.target, triggers=make_builder(*SHARED["S"], src))
+    tA = tasks.bind(app, T.target2, triggers=make_builder(*SHARED["A"], src))
+    app.register_deferred_triggers()
+    rc = RunnerContext("VfRunner", "r1")
+    seen: set = set()
+    for k, op in enumerate(hist):
+        if op[0] == "emit":
+            app.trigger.emit_event(op[1], {"v": op[2]})
+            seen.add(op[1])
+        elif op[0] == "ok":
+            finish_src(app, src, 1, 0, rc)
+            seen.add("st")
+        else:
+            app.trigger.trigger_loop_iteration()
+        app.state_backend.wait_for_all_async_operations()
+        if op[0] != "loop":
+            continue
+        for name, task in (("S", tS), ("A", tA)):
+            conds, logic = SHARED[name]
+            want = 1 if all(c in seen for c in conds) else 0
+            got = len(read_launched(app, task))
+            if got != want:
+                clause = ("shared-condition:trigger-not-launched-although-all-its-conditions-occurred" if got < want
+                          else "shared-condition:trigger-launched-more-than-once" if want
+                          else "shared-condition:trigger-launched-without-all-its-conditions")
+                return ({"clause": clause, "logic": logic, "conditions": len(conds)},
+                        {"backend": backend, "history": [list(o) for o in hist[: k + 1]], "trigger": name,
+                         "launches": got, "expected": want, "occurred": sorted(seen)})
+    return None
+
+
+def _shared_unit(item: tuple) -> Partial:
+    backend, depth = item
+    p = Partial()
+    reported: set = set()
+    for hist in shared_histories(depth):
+        bad = _run_shared(backend, hist)
+        p.count("shared_condition_histories")
+        p.count("transitions", len(hist))
+        p.count("traces_validated_against_impl")
+        if bad:
+            sig = dict(bad[0], backend=backend)
+            k = repr(sorted(sig.items()))
+            if k not in reported:
+                reported.add(k)
+                p.violation(sig, bad[1], {"kind": "history", "part": "occ-shared", "backend": backend,
+                                          "history": [list(o) for o in hist]})
+    return p
+
+
+# ---------------------------------------------------------------------------
 # PART B: schedules
 # ---------------------------------------------------------------------------
 POINT_MODULES = ["pynenc.trigger.mem_trigger", "pynenc.trigger.base_trigger"]
@@ -712,6 +802,9 @@ def run_part(ctx: Ctx) -> None:
         rot = ctx.seed % len(items)
         for part in par.pmap(_bfs_unit, items[rot:] + items[:rot]):
             ctx.merge(part)
+    if not only or "shared" in only:
+        for part in par.pmap(_shared_unit, [(b, 6) for b in env.BACKENDS]):
+            ctx.merge(part)
     ds = sched_descs(ctx)
     if only:
         ds = [d for d in ds if only in f"sched:{d['backend']}:{d['scenario']}"]
@@ -736,7 +829,9 @@ def run_part(ctx: Ctx) -> None:
         "that concern the configuration plus one that does not) with three alphabets: full, `one` (never two pending "
         "occurrences of one condition; OR: never two pending occurrences), `one-x` (additionally one exception occurrence "
         "per history); depths in extra.occ_depths; every transition replays the history on fresh real components and is "
-        "judged by the reference multiset model; schedules: two concurrent trigger_loop_iteration (+ one concurrent "
+        "judged by the reference multiset model; shared condition: a task launched by e1 alone and a task launched by "
+        "e2 AND e1 AND source-success, every history (all 39: <= 6 operations) in which each occurrence happens at most once "
+        "and loop iterations are interleaved anywhere, each task launched exactly once iff all its conditions occurred; schedules: two concurrent trigger_loop_iteration (+ one concurrent "
         "emit_event) over 1-2 pending occurrences, every schedule with <= bound deviations (extra.bounds), line points "
         "in mem_trigger/base_trigger (one shared trigger object) or SQL-statement points (one app object per process), "
         "then one sequential loop iteration")
@@ -766,4 +861,6 @@ def replay_part(payload: dict) -> bool:
         return e1.replay_schedule(r)
     if r.get("kind") == "history" and r.get("part", "occ") == "occ" and r.get("config") in CONFIGS:
         return replay_history(r)
+    if r.get("kind") == "history" and r.get("part") == "occ-shared":
+        return _run_shared(r["backend"], tuple(tuple(o) for o in r["history"])) is not None
     return False
